@@ -96,36 +96,36 @@ theorem src_initialize_mul128 (exp log : Array Nat) (hE : exp.size = 65536) (hL 
   generalize (Array.replicate 4194304 0 : Array Nat) = A at hA1 ⊢
   have hB1 : (Array.replicate 16 0 : Array Nat).size = 16 := Array.size_replicate ..
   generalize (Array.replicate 16 0 : Array Nat) = B at hB1 ⊢
-  -- state = (hi, lo)
-  refine Ok.forStep0 (fun n (st : Array Nat × Array Nat) => st.1.size = 4194304 ∧ st.2.size = 4194304 ∧
+  -- state = (lo, hi)
+  refine Ok.forStep0 (fun n (st : Array Nat × Array Nat) => st.2.size = 4194304 ∧ st.1.size = 4194304 ∧
       ∀ a k x, a < n → k < 4 → x < 16 →
-        st.2.getD ((a * 4 + k) * 16 + x) 0 = initMul16Entry exp log a k x % 256 ∧
-        st.1.getD ((a * 4 + k) * 16 + x) 0 = initMul16Entry exp log a k x / 256)
+        st.1.getD ((a * 4 + k) * 16 + x) 0 = initMul16Entry exp log a k x % 256 ∧
+        st.2.getD ((a * 4 + k) * 16 + x) 0 = initMul16Entry exp log a k x / 256)
     ⟨hA1, hA1, fun a k i h => absurd h (Nat.not_lt_zero _)⟩ ?_ ?_
-  · rintro m ⟨th, tl⟩ hm ⟨h1, h2, h3⟩
+  · rintro m ⟨tl, th⟩ hm ⟨h1, h2, h3⟩
     have hm' : m < 65536 := hm
     simp only at h1 h2 h3
     simp only []
-    refine Ok.forStep0 (fun n (st : Array Nat × Array Nat) => st.1.size = 4194304 ∧ st.2.size = 4194304 ∧
+    refine Ok.forStep0 (fun n (st : Array Nat × Array Nat) => st.2.size = 4194304 ∧ st.1.size = 4194304 ∧
         (∀ a k x, a < m → k < 4 → x < 16 →
-          st.2.getD ((a * 4 + k) * 16 + x) 0 = initMul16Entry exp log a k x % 256 ∧
-          st.1.getD ((a * 4 + k) * 16 + x) 0 = initMul16Entry exp log a k x / 256) ∧
+          st.1.getD ((a * 4 + k) * 16 + x) 0 = initMul16Entry exp log a k x % 256 ∧
+          st.2.getD ((a * 4 + k) * 16 + x) 0 = initMul16Entry exp log a k x / 256) ∧
         (∀ k x, k < n → x < 16 →
-          st.2.getD ((m * 4 + k) * 16 + x) 0 = initMul16Entry exp log m k x % 256 ∧
-          st.1.getD ((m * 4 + k) * 16 + x) 0 = initMul16Entry exp log m k x / 256))
+          st.1.getD ((m * 4 + k) * 16 + x) 0 = initMul16Entry exp log m k x % 256 ∧
+          st.2.getD ((m * 4 + k) * 16 + x) 0 = initMul16Entry exp log m k x / 256))
       ⟨h1, h2, h3, fun k x h => absurd h (Nat.not_lt_zero _)⟩ ?_ ?_
-    · rintro k ⟨sh, sl⟩ hk ⟨g1, g2, g3, g4⟩
+    · rintro k ⟨sl, sh⟩ hk ⟨g1, g2, g3, g4⟩
       have hk' : k < 4 := hk
       simp only at g1 g2 g3 g4
       simp only []
       have c1 : k * 4 < 18446744073709551616 := by omega
       have c2 : k * 4 < 64 := by omega
       simp only [c1, c2, hm', hk', and_self, if_true, bind_some']
-      refine Ok.forStep0 (fun n (st : Array Nat × Array Nat) => st.1.size = 16 ∧ st.2.size = 16 ∧
-          ∀ y, y < n → st.2.getD y 0 = initMul16Entry exp log m k y % 256 ∧
-            st.1.getD y 0 = initMul16Entry exp log m k y / 256)
+      refine Ok.forStep0 (fun n (st : Array Nat × Array Nat) => st.2.size = 16 ∧ st.1.size = 16 ∧
+          ∀ y, y < n → st.1.getD y 0 = initMul16Entry exp log m k y % 256 ∧
+            st.2.getD y 0 = initMul16Entry exp log m k y / 256)
         ⟨hB1, hB1, fun y h => absurd h (Nat.not_lt_zero _)⟩ ?_ ?_
-      · rintro x ⟨ph, pl⟩ hx ⟨p1, p2, p3⟩
+      · rintro x ⟨pl, ph⟩ hx ⟨p1, p2, p3⟩
         simp only at p1 p2 p3
         have e : x * 2 ^ (k * 4) % 18446744073709551616 % 65536 = x * 2 ^ (4 * k) := by
           have := shift_lt hk' hx
@@ -142,7 +142,7 @@ theorem src_initialize_mul128 (exp log : Array Nat) (hE : exp.size = 65536) (hL 
           unfold initMul16Entry
           omega
         · rw [if_neg c, if_neg c]; exact p3 y (by omega)
-      · rintro ⟨ph, pl⟩ ⟨p1, p2, p3⟩
+      · rintro ⟨pl, ph⟩ ⟨p1, p2, p3⟩
         simp only at p1 p2 p3 ⊢
         refine Ok.bind (write16_ok sl _ pl p2 (by rw [g2]; omega)) ?_
         intro rl ⟨w1, w2, w3⟩
@@ -156,7 +156,7 @@ theorem src_initialize_mul128 (exp log : Array Nat) (hE : exp.size = 65536) (hL 
           by_cases c : k' = k
           · subst c; rw [w2 x hx, v2 x hx]; exact p3 x hx
           · rw [w3 _ (by omega), v3 _ (by omega)]; exact g4 k' x (by omega) hx
-    · rintro ⟨sh, sl⟩ ⟨g1, g2, g3, g4⟩
+    · rintro ⟨sl, sh⟩ ⟨g1, g2, g3, g4⟩
       simp only at g1 g2 g3 g4
       refine Ok.some ⟨g1, g2, fun a k x ha hk hx => ?_⟩
       by_cases c : a < m
@@ -164,7 +164,7 @@ theorem src_initialize_mul128 (exp log : Array Nat) (hE : exp.size = 65536) (hL 
       · have : a = m := by omega
         subst this
         exact g4 k x hk hx
-  · rintro ⟨sh, sl⟩ ⟨g1, g2, g3⟩
+  · rintro ⟨sl, sh⟩ ⟨g1, g2, g3⟩
     exact Ok.some ⟨g2, g1, g3⟩
 
 end RS.SrcU
